@@ -9,7 +9,8 @@ Record wsheet := mkWs {
   w_sel : bool;                (* sheetView tabSelected *)
   w_content : Z }.             (* opaque content token (cells are the sheet core's business) *)
 
-Record dname := mkDn { d_name : bytes; d_scope : option Z (* localSheetId *); d_ref : bytes }.
+(* d_home is specification state: the sheetId of the worksheet the name was defined for (workbook names: -1) *)
+Record dname := mkDn { d_name : bytes; d_scope : option Z (* localSheetId *); d_ref : bytes; d_home : Z }.
 
 Record wbook := mkWb {
   sheets : list wsheet;
@@ -65,7 +66,7 @@ Definition new_sheet (n : bytes) (wb : wbook) : res wbook :=
 (* sheet.go:deleteAndAdjustDefinedNames *)
 Definition adjust_names (k : Z) (ns : list dname) : list dname :=
   flat_map (fun d => match d_scope d with
-                     | Some s => if s =? k then [] else if s >? k then [mkDn (d_name d) (Some (s - 1)) (d_ref d)] else [d]
+                     | Some s => if s =? k then [] else if s >? k then [mkDn (d_name d) (Some (s - 1)) (d_ref d) (d_home d)] else [d]
                      | None => [d]
                      end) ns.
 
@@ -97,6 +98,19 @@ Fixpoint insert_at {A} (l : list A) (n : nat) (x : A) : list A :=
   | S k, [] => [x]
   | S k, y :: r => y :: insert_at r k x
   end.
+(* sheet.go:MoveSheet, last loop: a scoped name follows its worksheet (matched by sheetId) to the new position *)
+Fixpoint index_by_id (ss : list wsheet) (id : Z) (i : Z) : Z :=
+  match ss with [] => -1 | s :: r => if w_id s =? id then i else index_by_id r id (i + 1) end.
+Definition remap_names (old new : list wsheet) (ns : list dname) : list dname :=
+  map (fun d => match d_scope d with
+                | Some k => if (k <? 0) || (Z.of_nat (length old) <=? k) then d
+                            else match nth_error old (Z.to_nat k) with
+                                 | Some sh => let k' := index_by_id new (w_id sh) 0 in
+                                              if k' <? 0 then d else mkDn (d_name d) (Some k') (d_ref d) (d_home d)
+                                 | None => d
+                                 end
+                | None => d
+                end) ns.
 Definition ungroup (wb : wbook) : wbook :=
   let a := active_index wb in
   mkWb (map (fun p => let '(i, s) := p in
@@ -118,7 +132,8 @@ Definition move_sheet (src tgt : bytes) (wb : wbook) : res wbook :=
       | Some s =>
         let rest := remove_at (sheets wb0) (Z.to_nat si) in
         let ti' := if ti >? si then ti - 1 else ti in
-        let wb1 := mkWb (insert_at rest (Z.to_nat ti') s) (active wb0) (names wb0) (fresh wb0) in
+        let moved := insert_at rest (Z.to_nat ti') s in
+        let wb1 := mkWb moved (active wb0) (remap_names (sheets wb0) moved (names wb0)) (fresh wb0) in
         Ok (set_active (sheet_index wb1 act_name) wb1)
       end.
 
@@ -161,9 +176,26 @@ Definition touch (n : bytes) (wb : wbook) : res wbook :=
   else Ok (mkWb (map (fun s => if name_eqf (w_name s) n then mkWs (w_name s) (w_id s) (w_state s) (w_sel s) (fresh wb) else s) (sheets wb))
                 (active wb) (names wb) (fresh wb + 1)).
 
+(* sheet.go:SetDefinedName with a worksheet scope (the harness gives every call a new name; uniqueness per scope is
+   C18's subject): the scope is stored as the worksheet's position *)
+Definition set_scoped_name (nm scope ref : bytes) (wb : wbook) : res wbook :=
+  let k := sheet_index wb scope in
+  if k <? 0 then Err 2
+  else match nth_error (sheets wb) (Z.to_nat k) with
+       | Some sh => Ok (mkWb (sheets wb) (active wb) (names wb ++ [mkDn nm (Some k) ref (w_id sh)]) (fresh wb))
+       | None => Err 2
+       end.
+(* what GetDefinedName reports as the scope of a name *)
+Definition scope_name (wb : wbook) (d : dname) : option bytes :=
+  match d_scope d with
+  | Some k => if k <? 0 then None else option_map w_name (nth_error (sheets wb) (Z.to_nat k))
+  | None => None
+  end.
+
 Inductive wop :=
 | WNew (n : bytes) | WDelete (n : bytes) | WMove (s t : bytes) | WRename (s t : bytes)
-| WVisible (n : bytes) (vis very : bool) | WActive (i : Z) | WCopy (from to : Z) | WTouch (n : bytes).
+| WVisible (n : bytes) (vis very : bool) | WActive (i : Z) | WCopy (from to : Z) | WTouch (n : bytes)
+| WSetName (nm scope ref : bytes).
 
 Definition wstep (wb : wbook) (o : wop) : wbook :=
   let r := match o with
@@ -175,6 +207,7 @@ Definition wstep (wb : wbook) (o : wop) : wbook :=
            | WActive i => Ok (set_active i wb)
            | WCopy a b => copy_sheet a b wb
            | WTouch n => touch n wb
+           | WSetName nm sc ref => set_scoped_name nm sc ref wb
            end in
   match r with Ok wb' => wb' | _ => wb end.      (* a rejected operation changes nothing *)
 Definition wrun (ops : list wop) (wb : wbook) : wbook := fold_left wstep ops wb.
